@@ -410,6 +410,19 @@ def random_bad_constraint(rng, n, r):
     return ['fix', g, rng.choice([x, None]), rng.choice([y, None]), rng.choice([None, None] + BINARY_TYPES)]
 
 
+def with_rejected_calls(rng, case):
+    """the case with one to three refused constraint calls before the search (wrong predecessor order with and
+    without a gate type, absent gates, types outside the basis, ...)"""
+    n, r = case_n(case), case['r']
+    rej = [random_bad_constraint(rng, n, r) for _ in range(rng.randint(1, 2))]
+    if r >= 1 and n >= 2 and rng.random() < 0.6:
+        g = n + rng.randrange(r)
+        hi = rng.randrange(1, g) if g > 1 else 1
+        lo = rng.randrange(hi)
+        rej.insert(0, ['fix', g, hi, lo, rng.choice(BINARY_TYPES)])        # second predecessor below the first
+    return dict(case, rejected=rej)
+
+
 # the inputs behind defect D14 (DESIGN.md 6.4) and other fixed regression inputs; run first
 CORPUS = [
     # D14a: a lone second_predecessor must constrain the gate: x0 xor x1 cannot be computed by one
@@ -626,6 +639,14 @@ def oracle(case, time_limit=None):
                 apply_constraint(f, k)
     except Exception as e:  # noqa: BLE001
         return f'constraint-rejected:{type(e).__name__} raised while imposing valid constraints: {e}'
+    # calls that the finder REFUSES (they raise) impose nothing: the class searched afterwards on the same finder is
+    # the class of the accepted constraints.  A call of this list that is accepted after all is not this situation.
+    for k in case.get('rejected') or []:
+        try:
+            apply_constraint(f, k)
+        except Exception:  # noqa: BLE001
+            continue
+        return None
     if case.get('timeout_first'):
         # a search that hits its time limit says nothing about the formula: the next search on the same
         # finder must still answer correctly (the solver is made slow so that the limit expires for sure)
